@@ -152,6 +152,15 @@ func (w *Filter) Process(ctx context.Context, e *eventlogger.Event) (*eventlogge
 
 	w.l.Lock()
 	defer w.l.Unlock()
+	// The lock was released since the Filter was initialized above: a
+	// concurrent FlushAll() without a Broker may have dropped the gated events
+	// (and their containers) in the meantime.
+	if w.gated == nil {
+		w.gated = map[string]*gatedEvent{}
+	}
+	if w.orderedGated == nil {
+		w.orderedGated = list.New()
+	}
 	// Is it first time we've seen this gated event ID?
 	if _, ok := w.gated[g.GetID()]; !ok {
 		ge := &gatedEvent{
